@@ -172,6 +172,28 @@ static void do_clip(Rng& g, const std::string& label, const Rect64& r, const Pat
   do_auto(label, r, p);
   g_current = "RECTCLIP " + SR(r) + " " + S(p);
   Paths64 out = RectClip(r, Paths64{p});
+  // "path by path": clipping several paths in one call must give the results of the single-path calls, one after the other.
+  // The previous inputs for the same rectangle are kept and re-submitted together with this one, in both orders.
+  {
+    static Rect64 last_r; static std::vector<std::pair<Path64, Paths64>> hist;
+    if (!(last_r.left == r.left && last_r.top == r.top && last_r.right == r.right && last_r.bottom == r.bottom)) { hist.clear(); last_r = r; }
+    if (!hist.empty()) {
+      size_t k = std::min<size_t>(hist.size(), 1 + g.next() % 3);
+      Paths64 in_fwd, want_fwd, in_bwd, want_bwd;
+      for (size_t i = hist.size() - k; i < hist.size(); ++i) { in_fwd.push_back(hist[i].first); want_fwd.insert(want_fwd.end(), hist[i].second.begin(), hist[i].second.end()); }
+      in_fwd.push_back(p); want_fwd.insert(want_fwd.end(), out.begin(), out.end());
+      in_bwd.push_back(p); want_bwd = out;
+      for (size_t i = hist.size() - k; i < hist.size(); ++i) { in_bwd.push_back(hist[i].first); want_bwd.insert(want_bwd.end(), hist[i].second.begin(), hist[i].second.end()); }
+      g_current = "RECTCLIP " + SR(r) + " several paths " + S(in_fwd);
+      Paths64 got_fwd = RectClip(r, in_fwd), got_bwd = RectClip(r, in_bwd);
+      stat("multi_path.calls", 2);
+      if (got_fwd != want_fwd) emitF(label + ".path_by_path", "RectClip of several paths differs from the single-path results: rect " + SR(r) + " paths " + S(in_fwd) + " got " + S(got_fwd) + " want " + S(want_fwd));
+      if (got_bwd != want_bwd) emitF(label + ".path_by_path", "RectClip of several paths differs from the single-path results: rect " + SR(r) + " paths " + S(in_bwd) + " got " + S(got_bwd) + " want " + S(want_bwd));
+      g_current = "RECTCLIP " + SR(r) + " " + S(p);
+    }
+    hist.emplace_back(p, out);
+    if (hist.size() > 6) hist.erase(hist.begin());
+  }
   // model level: bounds shortcuts
   std::string exp;
   if (r.IsEmpty()) exp = "";
